@@ -127,9 +127,10 @@ class PhaseField(_Simu):
         )
 
     def _Init_internal_state(self) -> None:
-        self.__psiP_e_pg: FeArray.FeArrayALike = np.empty(0, dtype=float)
-        # old positive elastic energy density psiPlus(e, pg, 1) to use the miehe history field
-        self.__old_psiP_e_pg: FeArray.FeArrayALike = np.empty(0, dtype=float)
+        # positive elastic energy density psiPlus(e, pg) of every element group (a mesh can hold several)
+        self.__psiP_e_pg: dict = {}
+        # old positive elastic energy density used by the miehe history field
+        self.__old_psiP_e_pg: dict = {}
 
     def Results_nodeFields_elementFields(
         self, details=False
@@ -522,10 +523,10 @@ class PhaseField(_Simu):
         psiP_e_pg, _ = phaseFieldModel.Calc_psi_e_pg(Epsilon_e_pg)
 
         if phaseFieldModel.solver == "History":
-            # Get the old history field
-            old_psiPlus_e_pg = self.__old_psiP_e_pg.copy()  # type: ignore [union-attr]
+            # Get the old history field of this element group
+            old_psiPlus_e_pg = self.__old_psiP_e_pg.get(groupElem.elemType)
 
-            if isinstance(old_psiPlus_e_pg, list) and len(old_psiPlus_e_pg) == 0:
+            if old_psiPlus_e_pg is None:
                 # No damage available yet
                 old_psiPlus_e_pg = np.zeros_like(psiP_e_pg)
 
@@ -544,9 +545,9 @@ class PhaseField(_Simu):
             # old = np.linalg.norm(self.__old_psiP_e_pg)
             # assert new >= old, "Error"
 
-        self.__psiP_e_pg = FeArray.asfearray(psiP_e_pg)
+        self.__psiP_e_pg[groupElem.elemType] = FeArray.asfearray(psiP_e_pg)
 
-        return self.__psiP_e_pg
+        return self.__psiP_e_pg[groupElem.elemType]
 
     def __Construct_Damage_Matrix(self):
 
@@ -633,9 +634,19 @@ class PhaseField(_Simu):
 
         if self.phaseFieldModel.solver == self.phaseFieldModel.SolverType.History:
             # update old history field for next resolution
-            self.__old_psiP_e_pg = self.__psiP_e_pg
+            for groupElem in self.mesh.Get_list_groupElem():
+                if groupElem.elemType not in self.__psiP_e_pg:
+                    # nothing computed yet (iteration saved before the first solve)
+                    nPg = groupElem.Get_gauss(MatrixType.mass).nPg
+                    self.__psiP_e_pg[groupElem.elemType] = FeArray.zeros(
+                        groupElem.Ne, nPg
+                    )
+            self.__old_psiP_e_pg = dict(self.__psiP_e_pg)
             # the history field is part of the state of this iteration: keep it, so that Set_Iter can bring it back
-            iter["psiP_e_pg"] = np.array(self.__old_psiP_e_pg, dtype=float)
+            iter["psiP_e_pg"] = {
+                elemType: np.array(psiP_e_pg, dtype=float)
+                for elemType, psiP_e_pg in self.__old_psiP_e_pg.items()
+            }
 
         iter["displacement"] = self.displacement
         iter["damage"] = self.damage
@@ -664,21 +675,30 @@ class PhaseField(_Simu):
             and "psiP_e_pg" in results
         ):
             # restore the history field that was current when this iteration was saved
-            psiP_e_pg = np.array(results["psiP_e_pg"], dtype=float)
-            if psiP_e_pg.ndim >= 2:
-                psiP_e_pg = FeArray.asfearray(psiP_e_pg)
-            self.__old_psiP_e_pg = psiP_e_pg
+            stored = results["psiP_e_pg"]
+            if not isinstance(stored, dict):
+                # iteration written with a single array (one element group)
+                stored = {self.mesh.groupElem.elemType: stored}
+            self.__old_psiP_e_pg = {}
+            for elemType, psiP_e_pg in stored.items():
+                psiP_e_pg = np.array(psiP_e_pg, dtype=float)
+                if psiP_e_pg.ndim >= 2:
+                    psiP_e_pg = FeArray.asfearray(psiP_e_pg)
+                self.__old_psiP_e_pg[elemType] = psiP_e_pg
             # the current field too: a Save_Iter that follows without a Solve stores the restored history, not the one of the state left behind
-            self.__psiP_e_pg = psiP_e_pg
+            self.__psiP_e_pg = dict(self.__old_psiP_e_pg)
 
         if (
             resetAll
             and self.phaseFieldModel.solver == self.phaseFieldModel.SolverType.History
         ):
             # It's really useful to do this otherwise when we calculate psiP there will be a problem
-            self.__old_psiP_e_pg = FeArray.zeros(*self.__old_psiP_e_pg.shape)
+            self.__old_psiP_e_pg = {}
             # update psi+ with the current state
-            self.__old_psiP_e_pg = self.__Calc_psiPlus_e_pg(self.mesh.groupElem)
+            self.__old_psiP_e_pg = {
+                groupElem.elemType: self.__Calc_psiPlus_e_pg(groupElem)
+                for groupElem in self.mesh.Get_list_groupElem()
+            }
 
         return results
 
